@@ -41,7 +41,7 @@ def segInfo (dot : Bool) (pp : PathPat) : SegInfo :=
   let i := pp.segs.foldl (fun (acc : SegInfo) s => match s with
     | .glob => acc
     | .pat g => { acc with scope := acc.scope && g.c01Scope && !g.langB false [],
-                           startSafe := acc.startSafe && g.startSafe dot, negFree := acc.negFree && g.negFree,
+                           startSafe := acc.startSafe && g.startSafe false,   -- path mode: `_NO_DIR` guards `?`/`[…]`/`*` at a segment start even under DOTGLOB negFree := acc.negFree && g.negFree,
                            d4 := acc.d4 || g.d4Trigger, d5 := acc.d5 || g.d5Trigger,
                            d15 := acc.d15 || g.d15Trigger }) {}
   { i with firstGlob := match pp.segs with | .glob :: _ => true | _ => false }
